@@ -607,6 +607,10 @@ class Compound(Event, abc.ABC, list[T], typing.Generic[T]):
         e.extend(super().__mul__(factor))
         return e
 
+    def __rmul__(self, factor: int) -> Compound[T]:
+        # Without this 'list.__rmul__' would return a plain list.
+        return self.__mul__(factor)
+
     @typing.overload
     def __getitem__(self, index_or_slice_or_tag: int) -> T:
         ...
